@@ -188,12 +188,26 @@ def run(ctx):
                'characters of literals', file=RENDER, line=a.lineno, witness="Constant('100%')")
     # (1) overrides
     overrides = []
-    for fn in [n for n in tree.body if isinstance(n, ast.FunctionDef) and n.name.startswith('render_')]:
+    mod_fns_ = {n.name: n for n in tree.body if isinstance(n, ast.FunctionDef)}
+    for fn in mod_fns_.values():
         for c in [x for x in ast.walk(fn) if isinstance(x, ast.ClassDef)]:
             for m in c.body:
                 if isinstance(m, ast.FunctionDef) and m.name == 'render_literal_value':
                     overrides.append((fn.name, m))
     ctx.setcount('literal_overrides', len(overrides))
+    # every entry of the text rendering (render_dml_query, render_ddl_query) compiles with such an override: it holds one, or calls (transitively) the function that does
+    owners_ = {f for f, _m in overrides}
+    for entry in [n for n in mod_fns_ if n.startswith('render_') and n.endswith('_query')]:
+        seen_, work_ = {entry}, [entry]
+        while work_:
+            for x in ast.walk(mod_fns_[work_.pop()]):
+                if isinstance(x, ast.Call) and isinstance(x.func, ast.Name) and x.func.id in mod_fns_ and x.func.id not in seen_:
+                    seen_.add(x.func.id)
+                    work_.append(x.func.id)
+        ctx.count('literal_override_entries')
+        ctx.ob('C07.literal-override', f'coverage:{entry}', bool(seen_ & owners_),
+               f'{entry} compiles the statement without a LiteralCompiler that overrides render_literal_value: string constants are then written by SQLAlchemy\'s own '
+               f'literal rendering', file=RENDER, line=mod_fns_[entry].lineno)
     for fname, m in overrides:
         for dn in names:
             real = dn
@@ -346,9 +360,10 @@ def run(ctx):
            any(norm(c.args[0]) == 't.value' for c in lits if c.args),
            'to_expression no longer passes Constant.value through sa.literal()', file=RENDER)
     ctx.sample({'dialects': names, 'probes': C04.VALUE_PROBES[:8]})
-    ctx.floor('literal_overrides', 2)
+    ctx.floor('literal_overrides', 1)
+    ctx.floor('literal_override_entries', 2)
     ctx.floor('dialect_keys', 7)
-    ctx.floor('override_probe_runs', 14)
+    ctx.floor('override_probe_runs', 7)
     ctx.floor('raw_sql_sites_in_renderer', 6)
     ctx.floor('ast_printer_classes', 20)
     check_text_rewrites(ctx, tree, cls)
